@@ -19,6 +19,7 @@ import ctypes
 import json
 import math
 import os
+import random
 import re
 import shutil
 import subprocess
@@ -804,6 +805,12 @@ def gen(rng, tier):
         if pr['family'] != 'range':                        # (the text model reads literals of the default kinds only)
             cases.append({'kind': 'text', 'prog': pr, 'script': script_of(pr)})
         cases += gen_runs(rng, pr, (4 if pr['family'] == 'big' else 4 if pr['family'] == 'range' else 8 if pr['family'] in ('sign', 'wrap') else 24) if tier == 'quick' else (12 if pr['family'] == 'big' else 8 if pr['family'] == 'range' else 30 if pr['family'] in ('sign', 'wrap') else 60))
+    # kept finding C07|values|real4-arithmetic as a fixed case (it used to be met by random programs only, so some seeds did not print its
+    # KNOWN-FINDING line): literal-only arithmetic `0.5 / 3` is carried out in single precision in the Fortran text.  Own PRNG, so the
+    # random part of the case list is what it was.
+    r4 = {'eqs': [['Y', ['b', '*', ['b', '/', ['d', '0.5'], ['i', 3]], ['v', 'X', 0]]]], 'family': 'bad', 'style': ' '}
+    cases.append({'kind': 'text', 'prog': r4, 'script': script_of(r4)})
+    cases += gen_runs(random.Random(20261002), r4, 8 if tier == 'quick' else 24)
     # hand-made boundary runs on the first corpus program (one equation, one lag)
     p0 = fixed[0]
     for t, mx, mn, off, fl, er in [(1, 0, 0, 0, 'raise', 'raise'), (1, 0, 0, 0, 'ignore', 'raise'), (0, 3, 0, 0, 'raise', 'raise'), (-4, 3, 0, 0, 'raise', 'raise'),
